@@ -4,9 +4,10 @@ CONSTANTS
   MaxLen2 = 3
   MaxLenPre = 4
   Ms = {0, 2}
-  Pres = {"none", "discard", "break", "sel"}
+  Pres = {"none", "discard", "break", "sel", "post"}
   D5_TimeoutToLastAction = TRUE
   D15_BreakBypassesHold = TRUE
   M_BusyIgnoresSelector = TRUE
+  M_PropagateResetsBusyFirst = TRUE
 INVARIANTS TypeOK TimeoutOnlyWhileJoining BusyIffJoining JoiningHasInitial StatementOK ExplainedByDeliveredTimeouts DevSwitched Export
 CHECK_DEADLOCK FALSE
